@@ -14,6 +14,7 @@ import (
 	"bufio"
 	"bytes"
 	"crypto/sha512"
+	"encoding/json"
 	"fmt"
 	"math/big"
 	"os"
@@ -53,16 +54,67 @@ func u(s string) (uint64, bool) {
 }
 
 // exec runs one op line against the implementation. Panics are caught by the caller (hx.Guard).
+// ops that are issued TWICE on the same in-memory byte slices: the answer must be the same both times
+var twiceOps = map[string]bool{"prove": true, "verify": true, "qn": true, "vbv": true, "vbt": true, "vbp": true, "gp": true,
+	"vmsg": true, "p2h": true, "p2v": true, "pad": true, "transport": true, "h2c": true, "genkey": true}
+
+// exec runs one op line against the implementation. Every byte-string argument is decoded ONCE, handed to the
+// code, and compared with a deep copy afterwards (a callee that writes into caller-owned input answers
+// INPUT-MUTATED); verification / proof ops are then issued a second time on the very same slices and must
+// answer the same (else UNSTABLE).
 func exec(line string) string {
 	w := strings.Fields(line)
 	if len(w) == 0 {
 		return "bad-op"
 	}
+	held := map[int][]byte{}
+	copies := map[int][]byte{}
+	r1 := execInner(w, held, copies)
+	for i, b := range held {
+		if !bytes.Equal(b, copies[i]) {
+			return fmt.Sprintf("INPUT-MUTATED arg%d %s->%s answer=%s", i, hx.Hex(copies[i]), hx.Hex(b), strings.ReplaceAll(r1, " ", "_"))
+		}
+	}
+	if twiceOps[w[0]] {
+		r2 := execInner(w, held, copies)
+		for i, b := range held {
+			if !bytes.Equal(b, copies[i]) {
+				return fmt.Sprintf("INPUT-MUTATED arg%d (second call) answer=%s", i, strings.ReplaceAll(r1, " ", "_"))
+			}
+		}
+		if r2 != r1 {
+			return "UNSTABLE first=" + strings.ReplaceAll(r1, " ", "_") + " second=" + strings.ReplaceAll(r2, " ", "_")
+		}
+	}
+	return r1
+}
+
+// execDeadline: exec under a panic guard and a per-call deadline. A call that does not return in time is
+// answered HANG (its goroutine is abandoned; the caller stops the stream after a few of them).
+var callDeadline = 6 * time.Second
+
+func execDeadline(line string) (res string, hung bool) {
+	ch := make(chan string, 1)
+	go func() { ch <- hx.Guard(func() string { return exec(line) }) }()
+	select {
+	case r := <-ch:
+		return r, false
+	case <-time.After(callDeadline):
+		return "HANG call did not return within " + callDeadline.String(), true
+	}
+}
+
+func execInner(w []string, held, copies map[int][]byte) string {
 	hb := func(i int) []byte {
+		if b, ok := held[i]; ok {
+			return b
+		}
 		b, err := hx.UnHex(w[i])
 		if err != nil {
 			panic("harness: bad hex in op")
 		}
+		held[i] = b
+		copies[i] = append([]byte{}, b...)
 		return b
 	}
 	switch w[0] {
@@ -126,7 +178,31 @@ func exec(line string) string {
 		ptq, _ := u(w[10])
 		before := time.Unix(1700000000, 0)
 		pre := &types.BlockHeader{Random: hb(4), CurTime: before, TotalQN: ptq, Height: h - 1}
-		bh := &types.BlockHeader{ProveValue: new(big.Int).SetBytes(hb(3)), CurTime: before.Add(time.Duration(ns)), TotalQN: tq, Height: h}
+		bh := &types.BlockHeader{ProveValue: new(big.Int).SetBytes(hb(3)), CurTime: before.Add(time.Duration(ns)), PreTime: before, TotalQN: tq, Height: h}
+		castor := &model.MinerInfo{VrfPK: vrf.VRFPublicKey(hb(2)), WorkingMiners: wm}
+		ok, err := logical.VerifC16VerifyBlockVRF(bh, pre, castor, t)
+		return vbvResult(ok, err)
+	case "vbp": // like vbt, but the header's PreTime field is whatever the sender wrote: <ns offset from the parent's CurTime> | zero | past
+		thr, _ := u(w[1])
+		setThreshold(thr)
+		ns, _ := strconv.ParseInt(w[5], 10, 64)
+		h, _ := u(w[7])
+		wm, _ := u(w[8])
+		t, _ := u(w[9])
+		tq, _ := u(w[10])
+		ptq, _ := u(w[11])
+		before := time.Unix(1700000000, 0)
+		var preTime time.Time
+		switch w[6] {
+		case "zero":
+		case "past":
+			preTime = time.Unix(1000, 0)
+		default:
+			off, _ := strconv.ParseInt(w[6], 10, 64)
+			preTime = before.Add(time.Duration(off))
+		}
+		pre := &types.BlockHeader{Random: hb(4), CurTime: before, TotalQN: ptq, Height: h - 1}
+		bh := &types.BlockHeader{ProveValue: new(big.Int).SetBytes(hb(3)), CurTime: before.Add(time.Duration(ns)), PreTime: preTime, TotalQN: tq, Height: h}
 		castor := &model.MinerInfo{VrfPK: vrf.VRFPublicKey(hb(2)), WorkingMiners: wm}
 		ok, err := logical.VerifC16VerifyBlockVRF(bh, pre, castor, t)
 		return vbvResult(ok, err)
@@ -215,7 +291,7 @@ func exec(line string) string {
 		now := time.Unix(1700000000, 0)
 		msg := hb(4)
 		pre := &types.BlockHeader{Random: msg, CurTime: now, TotalQN: ptq, Height: h - 1}
-		bh := &types.BlockHeader{ProveValue: new(big.Int).SetBytes(hb(3)), CurTime: now, TotalQN: tq, Height: h}
+		bh := &types.BlockHeader{ProveValue: new(big.Int).SetBytes(hb(3)), CurTime: now, PreTime: now, TotalQN: tq, Height: h}
 		castor := &model.MinerInfo{VrfPK: vrf.VRFPublicKey(hb(2)), WorkingMiners: wm}
 		ok, err := logical.VerifC16VerifyBlockVRF(bh, pre, castor, t)
 		return vbvResult(ok, err)
@@ -253,13 +329,38 @@ func setThreshold(thr uint64) {
 func smulBase(k []byte) []byte { return smulBaseImpl(k) }
 
 type gen struct {
-	r   *hx.Rng
-	out *hx.Out
-	thr []uint64
+	r     *hx.Rng
+	out   *hx.Out
+	thr   []uint64
+	hangs []string // op lines that did not return within the deadline
+	abort bool     // set after a few hangs: the rest of the stream is skipped so that the run ends quickly
 }
 
 func (g *gen) do(line string) string {
-	return g.out.Do(line, func() string { return exec(line) })
+	if g.abort {
+		return "skipped"
+	}
+	return g.out.Do(line, func() string {
+		r, hung := execDeadline(line)
+		if hung {
+			g.hangs = append(g.hangs, line)
+			if len(g.hangs) >= 3 {
+				g.abort = true
+			}
+		}
+		return r
+	})
+}
+
+// special answers of the harness itself (input mutation, instability, hangs): reported to the plugin as violations
+func (g *gen) specials() {
+	type sp struct{ Key, Desc, Op string }
+	var out []sp
+	for _, l := range g.hangs {
+		out = append(out, sp{"hang:" + strings.Fields(l)[0], "the call did not return within " + callDeadline.String() + " (per-call deadline of the harness)", l})
+	}
+	b, _ := json.Marshal(out)
+	fmt.Println("SPECIALS " + string(b))
 }
 
 func (g *gen) key() (pk, sk []byte) {
@@ -805,7 +906,15 @@ func (g *gen) messages(n int) {
 		t := uint64(r.Pick(1, 3, 5, 10))
 		var qn uint64
 		hx.Guard(func() string { _, qn = logical.VerifC16ValidateProve(pi, 10, 0, t); return "" })
-		g.do(fmt.Sprintf("vbt %d %s %s %s %d 10 0 %d %d %d", g.thr[0], hx.Hex(pk), hx.Hex(new(big.Int).SetBytes(pi).Bytes()), hx.Hex(rnd), ns, t, 70+qn, 70))
+		pvb := hx.Hex(new(big.Int).SetBytes(pi).Bytes())
+		g.do(fmt.Sprintf("vbt %d %s %s %s %d 10 0 %d %d %d", g.thr[0], hx.Hex(pk), pvb, hx.Hex(rnd), ns, t, 70+qn, 70))
+		// the header's own PreTime field is sender-controlled: the message must not depend on it
+		// (small forged offsets first, the far-away ones last: a tree that honours PreTime hangs on those)
+		pts := []string{"0", strconv.FormatInt(ns, 10), strconv.FormatInt(ns-2*sec, 10), strconv.FormatInt(ns-4*sec, 10), strconv.FormatInt(ns-10*sec, 10), strconv.FormatInt(5*sec, 10)}
+		g.do(fmt.Sprintf("vbp %d %s %s %s %d %s 10 0 %d %d %d", g.thr[0], hx.Hex(pk), pvb, hx.Hex(rnd), ns, pts[r.Intn(len(pts))], t, 70+qn, 70))
+		if i%10 == 9 {
+			g.do(fmt.Sprintf("vbp %d %s %s %s %d %s 10 0 %d %d %d", g.thr[0], hx.Hex(pk), pvb, hx.Hex(rnd), ns, []string{"zero", "past"}[r.Intn(2)], t, 70+qn, 70))
+		}
 	}
 }
 
@@ -963,6 +1072,7 @@ func main() {
 				g.do(l)
 			}
 		}
+		g.specials()
 		fmt.Println("STATS " + out.StatsJSON())
 		return
 	}
@@ -974,6 +1084,7 @@ func main() {
 		// fork-configuration session: the real Proposal025Block of this network, heights on both sides
 		g.thr = []uint64{threshold()}
 		g.forkSession(150 * scale)
+		g.specials()
 		fmt.Println("STATS " + out.StatsJSON())
 		return
 	}
@@ -985,5 +1096,6 @@ func main() {
 	g.headers(40 * scale)
 	g.messages(30 * scale)
 	g.flow(60 * scale)
+	g.specials()
 	fmt.Println("STATS " + out.StatsJSON())
 }
